@@ -252,3 +252,18 @@ theorem wal_truncation_prefix (P : Params) (rs : List Bytes) (n : Nat) :
   have := read_stream_prefix P rs 0 ((writeAll P 0 rs).1.take n) ((writeAll P 0 rs).1.drop n)
     (((writeAll P 0 rs).1.take n).length + 2) (Nat.zero_le _) (List.take_append_drop n _)
   simpa using this
+
+/-- whatever follows a run of complete records in the file — a damaged record, arbitrary bytes, nothing —
+the complete records are read back first, in order -/
+theorem wal_records_before_damage (P : Params) (rs : List Bytes) (junk : Bytes) :
+    rs <+: (readAll P ((writeAll P 0 rs).1 ++ junk)).1 := by
+  unfold readAll
+  have hc := costAll_le P rs 0
+  have hfuel : ((writeAll P 0 rs).1 ++ junk).length + 2 =
+      costAll P 0 rs + (((writeAll P 0 rs).1 ++ junk).length + 2 - costAll P 0 rs) := by
+    simp only [List.length_append]; omega
+  rw [hfuel]
+  have h := read_writeAll P rs 0 junk (((writeAll P 0 rs).1 ++ junk).length + 2 - costAll P 0 rs) (Nat.zero_le _)
+  simp only [Nat.sub_zero] at h
+  rw [h]
+  exact List.prefix_append _ _
